@@ -222,7 +222,7 @@ class Session:
             for arg in op[1:3]:
                 if isinstance(arg, str):
                     hit = [p for p in self.detached_now if p == arg or p.startswith(arg.rstrip("/") + "/")]
-                    if hit and os.path.lexists(os.path.join(uni.root, arg)):
+                    if hit:
                         # The user touches a path whose node is detached right now (its
                         # declaring plan failed in the preceding build): known finding F20.
                         self.detached_output_events.extend(hit[:3])
